@@ -242,6 +242,7 @@ class HTTPURLValidator(Validator):
 
     all_parts = (
         "scheme",
+        "netloc",
         "username",
         "password",
         "hostname",
